@@ -575,6 +575,25 @@ func ruleLookAhead(c *Ctx, rule string) {
 			}
 		}
 		c.check(g1 && dominates(c1, c2), rule, name+": look-ahead only after a successful read", w.At(c2), "dominated by first err == nil", "the look-ahead read is not control-dependent on the first read having succeeded")
+		// ... and under no other condition: whenever the first read succeeded on a non-streaming side the look-ahead must happen
+		extra := ""
+		base := map[ssa.Value]bool{}
+		for _, f := range boolFactsAt(c1) {
+			base[f.V] = true
+		}
+		for _, f := range boolFactsAt(c2) {
+			if base[f.V] {
+				continue
+			}
+			if fr, _, isF := loadedField(f.V); isF && fr == gFlag {
+				continue
+			}
+			if b, isB := f.V.(*ssa.BinOp); isB && b.Op == token.EQL && isNilConst(b.Y) && origin(b.X) == err1 {
+				continue
+			}
+			extra = desc(f.V) + fmt.Sprintf(" == %v", f.True)
+		}
+		c.check(extra == "", rule, name+": look-ahead unconditional on a non-streaming side", w.At(c2), "no further condition", "the look-ahead is additionally conditional on "+extra+": when that condition fails a second message from the peer is never examined and the RPC succeeds (the handler/caller of a single-message side is given success although several messages were sent)")
 		if gFlag.Field == "" {
 			c.fail(rule, name+": look-ahead on the non-streaming edge", w.At(c2), "the look-ahead is not on the false edge of a streaming flag")
 		} else {
@@ -946,10 +965,13 @@ func ruleChannelIdentity(c *Ctx, r4, r5 string) {
 			}
 			// context: stream.Context() of the carrier, or the ctx the carrier was opened with
 			d := desc(src.Call.Args[0])
-			if strings.HasSuffix(d, ".Context()") || strings.Contains(d, "AppendToOutgoingContext(param:ctx") {
-				ok = true
-			} else {
-				why = "metadata read from context " + d
+			switch {
+			case strings.HasSuffix(d, ".Context()"):
+				ok = true // the carrier stream's own context: includes what interceptors added
+			case p.fn == "(*ReverseTunnelServer).Serve" && strings.Contains(d, "AppendToOutgoingContext(param:ctx"):
+				ok = true // documented limitation of Serve (source comment: no access to interceptor-added metadata)
+			default:
+				why = "metadata read from context " + d + " instead of the carrier stream's Context()"
 			}
 		})
 		c.check(ok, r5, p.fn+": opening metadata captured from the carrier's context", posOf(w, fn), p.src[strings.LastIndex(p.src, ".")+1:]+"(carrier context) -> "+p.ctor, "the tunnel metadata handed to "+p.ctor+" is not "+p.src+" of the context the carrier was opened with ("+why+")")
